@@ -198,6 +198,15 @@ class Session:
         self.task = asyncio.ensure_future(s.prompt_async("> ", default=Document(text, len(text) if cur is None else cur)))
         for _ in range(6):          # application starts, first render, history load
             await asyncio.sleep(0)
+        # remember the buffer text at the moment the application is told to exit
+        self.text_at_exit = None
+        orig_exit = s.app.exit
+
+        def exit_(*a, **kw):
+            if self.text_at_exit is None:
+                self.text_at_exit = s.default_buffer.text
+            return orig_exit(*a, **kw)
+        s.app.exit = exit_
         self.flush_len = None
         return self
 
@@ -275,6 +284,8 @@ class Session:
         b = app.current_buffer
         if b.complete_state is not None or b.enable_history_search():
             return "skip"
+        if len(b.text) > 400 or sum(len(l) for l in b._working_lines) > 1200:
+            return "skip"       # keeps the replay on the model cheap; the oracle still sees these states
         vs = app.vi_state
         sel = b.selection_state
         modes = {"vi-insert": 0, "vi-insert-multiple": 1, "vi-navigation": 2, "vi-replace": 3, "vi-replace-single": 4}
@@ -352,7 +363,12 @@ class Session:
                 if "prompt_toolkit" in fr.filename:
                     where = "%s:%s" % (fr.filename.split("prompt_toolkit/")[-1], fr.name)
                     break
-            return "%s@%s" % (type(e).__name__, where)
+            via = ""
+            for fr in reversed(tb):         # the key handler the exception came through
+                if "key_binding/bindings/" in fr.filename or fr.filename.endswith("shortcuts/prompt.py"):
+                    via = "<%s:%s" % (fr.filename.split("/")[-1], fr.name)
+                    break
+            return "%s@%s%s" % (type(e).__name__, where, via)
         if rec is not None and tok != "<flush>" and self.calls_this_key == 0 and not self.app.is_done \
                 and len(proc.key_buffer) == len(kb0) + 1:
             rec["dispatch"].append((bits0, kb0 + [keypress_code(kp)], 0, [1]))      # Wait
@@ -497,5 +513,5 @@ def _run_case(cfg, keys, yield_every=0, per_key=None, instrument=None):
                     await asyncio.sleep(0)
         finally:
             outcome = await s.finish()
-        return {"trace": trace, "outcome": outcome, "loop_errors": list(s.loop_errors)}
+        return {"trace": trace, "outcome": outcome, "loop_errors": list(s.loop_errors), "text_at_exit": s.text_at_exit}
     return asyncio.run(main())
